@@ -643,16 +643,15 @@ fn all_req(rng: &mut Rng, seq: u64) -> Req {
     Req { ep: "all", method: "POST", target: t, ct: Some(b"application/json".to_vec()), framing, payload, meta: String::new(), sent_canon: sent, nonce: n }
 }
 
-fn emit(out: &mut Out, stream: &str, id: &mut u64, reqs: &[Req], port: u16, resps: Vec<Option<RawResponse>>, deltas: Option<Vec<usize>>) {
-    for (i, (rq, rs)) in reqs.iter().zip(resps.into_iter()).enumerate() {
-        *id += 1;
-        let g = digest(rs);
-        let d = match &deltas {
-            Some(d) => d[i].to_string(),
-            None => "na".to_string(),
-        };
-        out.line(&format!("{} => {}", rq.line_input(stream, *id, port), g.line_output(&d, "na")));
-    }
+fn emit(out: &mut Out, stream: &str, id: &mut u64, rq: &Req, a: Answer, delta: Option<usize>) -> bool {
+    *id += 1;
+    let g = digest(a.resp);
+    let d = match delta {
+        Some(d) => d.to_string(),
+        None => "na".to_string(),
+    };
+    out.line(&format!("{} => {}", rq.line_input(stream, *id, a.port), g.line_output(&d, &format!("r{}", a.resent))));
+    g.status == 200
 }
 
 fn main() {
@@ -682,18 +681,28 @@ fn main() {
     for _ in 0..(2_500 * mult) {
         let rq = gen_req(&mut rng);
         let before = ctx.count(rq.ep);
-        let (port, resps) = pipeline(addr, std::slice::from_ref(&rq));
+        let a = single(addr, &rq);
         let delta = ctx.count(rq.ep) - before;
-        emit(&mut out, "sv", &mut id, std::slice::from_ref(&rq), port, resps, Some(vec![delta]));
+        emit(&mut out, "sv", &mut id, &rq, a, Some(delta));
     }
     // pl: pipelined on one connection
     let mut rng = Rng::from_env(409);
+    let before_pl = ctx.total();
+    let mut ok_pl = 0usize;
+    let mut sent_pl = 0usize;
     for _ in 0..(250 * mult) {
         let k = rng.range(2, 8) as usize;
         let reqs: Vec<Req> = (0..k).map(|_| gen_req(&mut rng)).collect();
-        let (port, resps) = pipeline(addr, &reqs);
-        emit(&mut out, "pl", &mut id, &reqs, port, resps, None);
+        let answers = run_conn(addr, &reqs, k);
+        for (rq, a) in reqs.iter().zip(answers.into_iter()) {
+            sent_pl += 1;
+            if emit(&mut out, "pl", &mut id, rq, a, None) {
+                ok_pl += 1;
+            }
+        }
     }
+    id += 1;
+    out.line(&format!("ct {} {} {} => {}", id, sent_pl, ok_pl, ctx.total() - before_pl));
     out.flush();
 
     // cc: concurrency
@@ -708,59 +717,33 @@ fn main() {
     let mut sent_total = 0usize;
     let mut ok_total = 0usize;
     for (conns, depth, rounds) in configs {
-        let mut plans: Vec<Vec<Vec<Req>>> = Vec::new();
+        let mut plans: Vec<Vec<Req>> = Vec::new();
         let mut seq = 0u64;
         for _ in 0..*conns {
-            let mut rounds_v = Vec::new();
-            for _ in 0..*rounds {
-                let mut batch = Vec::new();
-                for _ in 0..*depth {
-                    seq += 1;
-                    batch.push(all_req(&mut rng, seq));
-                }
-                rounds_v.push(batch);
+            let mut v = Vec::new();
+            for _ in 0..(*rounds * *depth) {
+                seq += 1;
+                v.push(all_req(&mut rng, seq));
             }
-            plans.push(rounds_v);
+            plans.push(v);
         }
+        let depth = *depth;
         let handles: Vec<_> = plans
             .into_iter()
             .map(|plan| {
                 std::thread::spawn(move || {
-                    // one connection, `rounds` batches of `depth` pipelined requests
-                    let mut results: Vec<(Req, u16, Option<RawResponse>)> = Vec::new();
-                    let Ok(mut s) = connect_long(addr) else {
-                        for b in plan {
-                            for r in b {
-                                results.push((r, 0, None));
-                            }
-                        }
-                        return results;
-                    };
-                    let port = s.local_addr().map(|a| a.port()).unwrap_or(0);
-                    let mut rr = RespReader::new(s.try_clone().expect("clone"));
-                    for batch in plan {
-                        let mut all = Vec::new();
-                        for r in &batch {
-                            all.extend_from_slice(&r.wire());
-                        }
-                        use std::io::Write;
-                        let wrote = s.write_all(&all).is_ok();
-                        for r in batch {
-                            let resp = if wrote { rr.read_response(false) } else { None };
-                            results.push((r, port, resp));
-                        }
-                    }
-                    results
+                    let answers = run_conn(addr, &plan, depth);
+                    (plan, answers)
                 })
             })
             .collect();
         for h in handles {
-            for (rq, port, resp) in h.join().expect("client thread") {
+            let (plan, answers) = h.join().expect("client thread");
+            for (rq, a) in plan.iter().zip(answers.into_iter()) {
                 sent_total += 1;
-                if resp.as_ref().map(|r| r.status == 200).unwrap_or(false) {
+                if emit(&mut out, "cc", &mut id, rq, a, None) {
                     ok_total += 1;
                 }
-                emit(&mut out, "cc", &mut id, std::slice::from_ref(&rq), port, vec![resp], None);
             }
         }
     }
